@@ -398,7 +398,7 @@ theorem viewSet_lit_frame (o : Nat) (key : String) (v : Val) (s : State) (n m : 
     rw [this] at hp
     exact hfresh p hp
   · rename_i hfind
-    rcases hres with ⟨lv, t, rfl, hshape, _, _⟩ | ⟨a, hsrc, _, _⟩
+    rcases hres with ⟨lv, t, rfl, hshape, _, _, _, _⟩ | ⟨a, hsrc, _, _⟩
     · simp only []
       rw [post_bind]
       apply Post.of_eq _ _ (allocVal_eq lv _ t hshape s)
@@ -891,7 +891,7 @@ theorem viewSet_new_refines (o : Nat) (key : String) (v : Val) (s : State) (hnew
   rw [hg, post_bind_pure]
   simp only [hnew]
   have hres' := hres
-  rcases hres with ⟨lv, t, rfl, hshape, _, _⟩ | ⟨a, hsrc, _, _⟩
+  rcases hres with ⟨lv, t, rfl, hshape, _, _, _, _⟩ | ⟨a, hsrc, _, _⟩
   · simp only []
     rw [post_bind]
     apply Post.of_eq _ _ (allocVal_eq lv _ t hshape s)
